@@ -129,7 +129,7 @@ func ParseWriteMultipleRegistersRequestTCP(data []byte) (*WriteMultipleRegisters
 	var registerData []byte
 	if registersBytesCount > 0 {
 		registerData = make([]byte, registersBytesCount)
-		copy(registerData, data[13:13+registersBytesCount])
+		copy(registerData, data[13:13+int(registersBytesCount)])
 	}
 	return &WriteMultipleRegistersRequestTCP{
 		MBAPHeader: header,
@@ -214,7 +214,7 @@ func ParseWriteMultipleRegistersRequestRTU(data []byte) (*WriteMultipleRegisters
 	var registerData []byte
 	if registersBytesCount > 0 {
 		registerData = make([]byte, registersBytesCount)
-		copy(registerData, data[7:7+registersBytesCount])
+		copy(registerData, data[7:7+int(registersBytesCount)])
 	}
 	return &WriteMultipleRegistersRequestRTU{
 		WriteMultipleRegistersRequest: WriteMultipleRegistersRequest{
